@@ -90,6 +90,12 @@ def variants(quick: bool) -> List[Variant]:
     L = ["proto p", "message T {"] + _enum(I, "K", "w0", "Z0") + ["}", "message A {", I + "T.K f = 1", I + "message T {"] + _enum(I * 2, "K", "w1", "Z1") + [I + "}", I + "T.K g = 2", "}"]
     out.append(Variant("use-shadow-use:dotted:f", "\n".join(L) + "\n", (("A",), "f"), "w0", 0))
     out.append(Variant("use-shadow-use:dotted:g", "\n".join(L) + "\n", (("A",), "g"), "w1", 0))
+    # ---- the head of a dotted path is, in the innermost scope, the name of a FIELD (not a scope): the lookup fails there
+    # and goes on outward; it must not pick a sibling of that field named like the rest of the path
+    L = ["proto p", "message gps {"] + _enum(I, "Fix", "w0", "Z0") + ["}", "message Track {"] + _enum(I, "Fix", "w1", "Z1") + [I + "uint8 gps = 1", I + "gps.Fix f = 2", "}"]
+    out.append(Variant("dotted-head-is-a-field:local", "\n".join(L) + "\n", (("Track",), "f"), "w0", 0))
+    L = ["proto p", 'import "lib.bitproto"', "message Track {"] + _enum(I, "X", "w1", "Z1") + [I + "uint8 lib = 1", I + "lib.X f = 2", "}"]
+    out.append(Variant("dotted-head-is-a-field:import", "\n".join(L) + "\n", (("Track",), "f"), 9, 0, files={"lib.bitproto": "proto lib\nenum X : uint9 {\n    Z = 0\n}\n"}))
     # ---- file-scope alias instead of enum, use at depth 1 and 2
     for lvl1 in ("none", "before"):
         L = ["proto p", "type X = {I:w0}[2]", "message A {"]
